@@ -1459,6 +1459,10 @@ class SplineObject(object):
         knot2 = spline2.knots(direction=i)
         b1    = spline1.bases[i]
         b2    = spline2.bases[i]
+        if b1.periodic > -1:
+            # the end of a periodic direction is its start: the seam is visited once
+            knot1 = knot1[:-1]
+            knot2 = knot2[:-1]
 
         inserts = []
         for k in knot1:
